@@ -412,11 +412,20 @@ def check_optfree(spec):
         memo = not (combo[2] and not combo[3])
         _opt_check(res, cls, O.PlainRenamer, pool, spec["calls"], [()], _tag(combo, names),
                    "optfree", memoizes=memo)
+    # a class that overrides handlers which base classes alias (map_product = map_sum ...)
+    if O.OPT_ALIAS_ERRORS:
+        c, exc = sorted(O.OPT_ALIAS_ERRORS.items())[0]
+        res.fail("optfree:alias-family:optimize_mapper-raised",
+                 f"options {c}: {type(exc).__name__}: {exc}")
+    for combo, cls in sorted(O.OPT_ALIAS.items()):
+        _opt_check(res, cls, O.PlainMarker, pool, spec["calls"], [()],
+                   "alias-family:" + _tag(combo, names), "optfree", memoizes=False)
     res.nontrivial = len(spec["calls"]) >= 2 and any(
         walk.children(x) for x in pool if not isinstance(x, _Fresh))
     res.label("optimizer")
     res.sample = {"pool": [repr(getattr(x, "spec", x))[:80] for x in pool],
-                  "calls": spec["calls"][:8], "combinations": len(O.OPT_FREE)}
+                  "calls": spec["calls"][:8],
+                  "combinations": len(O.OPT_FREE) + len(O.OPT_ALIAS)}
     return res
 
 
